@@ -227,16 +227,26 @@ WordsOf(L, fmt) ==
 
 (* one case: which bytes, which fetch order, a partial (prefix) instruction  *)
 (* already holding `pre`, and whether the setup function rejects             *)
-CaseOf(L, w, endian, ntail, trunc, pre, hook, seed) ==
-  LET full  == WordBytes(w, endian) \o RandBytes(ntail, seed)
-      bytes == IF trunc THEN SubSeq(full, 1, (L.size \div 8) - 1) ELSE full
-      acc   == Accepts(L, bytes, endian)
+CaseOfBytes(L, bytes, endian, pre, hook) ==
+  LET acc   == Accepts(L, bytes, endian)
       got   == IF acc THEN SetToSeq(Delivered(L, bytes, endian)) ELSE <<>>
   IN [bytes |-> bytes, endian |-> endian, pre |-> pre, hook |-> hook,
       out |-> IF ~acc THEN "rej" ELSE IF hook = "reject" THEN "hookrej" ELSE "acc",
       got |-> got,
       ibytes |-> IF acc /\ hook = "ok" THEN pre \o SubSeq(bytes, 1, L.size \div 8) ELSE pre,
       attrs_after |-> IF acc /\ hook = "ok" THEN SetToSeq({f.name : f \in {g \in L.fields : g.dest = "attr"}}) ELSE <<>>]
+
+CaseOf(L, w, endian, ntail, trunc, pre, hook, seed) ==
+  LET full  == WordBytes(w, endian) \o RandBytes(ntail, seed)
+      bytes == IF trunc THEN SubSeq(full, 1, (L.size \div 8) - 1) ELSE full
+  IN CaseOfBytes(L, bytes, endian, pre, hook)
+
+(* a variable-length spec is followed by ALL remaining input bytes: long inputs (17, 24 and 40 bytes in  *)
+(* all, the last byte non-zero so that a shortened tail changes every form of the value)               *)
+LongCase(L, w, total, seed) ==
+  LET head == WordBytes(w, 1)
+      n    == total - Len(head) - 1
+  IN CaseOfBytes(L, head \o RandBytes(IF n > 0 THEN n ELSE 0, seed) \o <<129>>, 1, <<>>, "ok")
 
 CasesOf(L, fmt) ==
   LET ws == WordsOf(L, fmt)
@@ -250,7 +260,10 @@ CasesOf(L, fmt) ==
                   CaseOf(L, ws[2], 1, 1, FALSE, <<102>>, "ok", seed),                     \* after a prefix
                   CaseOf(L, ws[1], 1, 2, FALSE, <<102, 103>>, "reject", seed),            \* setup function rejects
                   CaseOf(L, ws[2], ends[Len(ends)], 0, FALSE, <<>>, "reject", seed) >>
-  IN main \o extra
+      long == IF L.var THEN << LongCase(L, ws[2], 17, seed), LongCase(L, ws[1], 24, (seed + 5) % 65536),
+                                LongCase(L, ws[2], 40, (seed + 11) % 65536) >>
+              ELSE <<>>
+  IN main \o extra \o long
 
 Behaviour ==
   LET L == Doc(TheAst) IN
